@@ -340,15 +340,19 @@ func c01Case(r *kit.Run, idx int64, rng *rand.Rand) {
 				return false
 			}
 		}) {
-			stuck = true
 			c, q := kit.Quiesce(c14Watchdog)
-			if q {
-				r.Violation("C01/"+construct+"/no-termination", idx, desc, fmt.Sprintf("the pipeline over a finite input never finished; at quiescence: %v", c.Describe()), nil)
+			if isClosed(done) {
+				// finished late (slow machine): not a verdict
 			} else {
-				r.Inconclusive("C01 pipeline did not finish and the process is not quiescent: " + construct)
+				stuck = true
+				if q {
+					r.Violation("C01/"+construct+"/no-termination", idx, desc, fmt.Sprintf("the pipeline over a finite input never finished; at quiescence: %v", c.Describe()), nil)
+				} else {
+					r.Inconclusive("C01 pipeline did not finish and the process is not quiescent: " + construct)
+				}
+				cancel()
+				<-done
 			}
-			cancel()
-			<-done
 		}
 	})
 	if stuck {
